@@ -182,8 +182,8 @@ def tag_of(s):
     if isinstance(s, (LoopIR.Assign, LoopIR.Reduce)):
         rhs = s.rhs.val if isinstance(s.rhs, LoopIR.Const) else id(s.rhs)
         return (type(s).__name__, id(s.name), rhs)
-    if isinstance(s, LoopIR.WriteConfig):
-        return ("WriteConfig", id(s.config), s.field)
+    # configuration writes are not traced: what they can disturb is a guard that reads the field, and that
+    # is the subject of the separate `guard is stable` obligation (cfg_reads / cfg_writes below)
     if isinstance(s, LoopIR.Call):
         return ("Call", id(s.f))
     return None
@@ -221,14 +221,19 @@ def inst(e, prefix):
 
 
 def dom(e, env):
+    """the instance executes: every enclosing loop's iterator is within its bounds and every enclosing guard
+    holds - each evaluated in the scope of the binders *outside* it only (a name that is not bound there
+    denotes whatever the procedure's arguments give it, i.e. an arbitrary value)"""
     cs = []
+    scope = {}
     for b in e.binders:
         if b[0] == "for":
             it = env[id(b[1].iter)]
-            cs.append(evx(b[1].lo, env) <= it)
-            cs.append(it < evx(b[1].hi, env))
+            cs.append(evx(b[1].lo, scope) <= it)
+            cs.append(it < evx(b[1].hi, scope))
+            scope = {**scope, id(b[1].iter): it}
         else:
-            c = evx(b[1].cond, env)
+            c = evx(b[1].cond, scope)
             cs.append(c if b[2] else Not(c))
     return And(cs)
 
@@ -257,16 +262,16 @@ def before(a, ea, b, eb):
 # obligations (symbolic)
 
 def default_witness(evs):
-    """candidates for 'which instance observes the value tuple v': every event
-    whose index expressions are exactly its own iterators (x[i], x[i, j])"""
+    """candidates for 'which instance observes the value tuple v': an event whose index expressions are
+    exactly its own iterators (x[i], x[i, j]) with those iterators set to v; an event outside any loop"""
     def wit(v):
         out = []
         for e in evs:
             its = e.iters()
-            if len(e.idx) == len(its) == len(v) and all(
+            if its and len(e.idx) == len(its) == len(v) and all(
                     isinstance(x, LoopIR.Read) and x.name is it for x, it in zip(e.idx, its)):
                 out.append((e, {id(it): x for it, x in zip(its, v)}))
-            elif not its and not v:
+            elif not its:
                 out.append((e, {}))
         return out
     return wit
@@ -410,6 +415,7 @@ CHECKS = {
     "Check_IsPositiveExpr": check_callee("Check_IsPositiveExpr", lambda a: evx(a.expr) > 0),
     "Check_IsNonNegativeExpr": check_callee("Check_IsNonNegativeExpr", lambda a: evx(a.expr) >= 0),
     "Check_CompareExprs": check_callee("Check_CompareExprs", lambda a: _cmp(a.op, evx(a.lhs), evx(a.rhs))),
+    "Check_ExprBound": check_callee("Check_ExprBound", lambda a: _cmp(a.op, evx(a.expr), a.value)),
     "Check_IsDivisible": check_callee("Check_IsDivisible", lambda a: S.mod(evx(a.expr), a.quot) == 0),
     "Check_ExprEqvInContext": check_callee(
         "Check_ExprEqvInContext",
@@ -430,3 +436,42 @@ def use_checks(c, *names):
 
 def calls(a, name):
     return [x for n, x in a.g.ghost.get("checks", []) if n == name]
+
+
+def quiet_scheduling_errors():
+    """SchedulingError.__init__ walks the whole Python stack with inspect.stack() to find the name of the
+    scheduling operation for its *message*.  Under pyvc's deep interpreter recursion (and the 2^18-local
+    frame of the pool workers) that costs seconds per raise.  Only the message text depends on it (exception
+    messages are dropped by the extraction anyway), so the checker process replaces the stack walk."""
+    from exo.rewrite import new_eff
+    new_eff.SchedulingError._get_scheduling_ops = staticmethod(lambda: ["<scheduling operation>"])
+
+
+class _ShallowInspect:
+    """stands in for the `inspect` module inside exo.frontend.pattern_match: match_pattern calls
+    inspect.stack() only to read the file name / line / locals of its *direct caller* (for error positions and
+    `$`-unquoting); materialising the whole stack costs one source lookup (os.stat) per frame, i.e. seconds
+    under pyvc's deep interpreter recursion.  The shim returns the innermost frames only."""
+    def __init__(self):
+        import inspect
+        self._inspect = inspect
+
+    def stack(self, context=1):
+        import sys
+        f = sys._getframe(1)
+        out = []
+        while f is not None and len(out) < 6:
+            out.append(self._inspect.FrameInfo(f, f.f_code.co_filename, f.f_lineno, f.f_code.co_name, None, None))
+            f = f.f_back
+        return out
+
+    def __getattr__(self, name):
+        return getattr(self._inspect, name)
+
+
+def checker_shims():
+    """performance shims of the checker process (no effect on what the verified functions compute)"""
+    quiet_scheduling_errors()
+    import exo.frontend.pattern_match as PM
+    if not isinstance(PM.inspect, _ShallowInspect):
+        PM.inspect = _ShallowInspect()
